@@ -2,6 +2,8 @@
    enc <mml> <ref> <tgt>    -> "E <encoded> D <decode_full of it>"   (new, prepare, encode; then the decompressor's wrapper)
    dec <mml> <ref> <stream> -> "D <decoded>"                          (new, prepare, decode of an arbitrary stream)
    enc0 <mml> <tgt>         -> "E <encoded>"                          (new, encode without prepare)
+   est <mml> <ref> <tgt> <bound>   -> estimate (decimal)
+   cost <mml> <ref> <tgt> <0|1>    -> get_coding_cost_vector (comma separated), 1 = prefix_costs
    hash <hex>               -> MurMur64Hash::hash
    a panic anywhere in the real code is PANIC in that position *)
 open Model
@@ -20,6 +22,14 @@ let () = run_lines (function
     (match lz_new (n_of_int (int_of_string m)) with
      | Ok st -> (match lz_encode murmur64 st (bytes_of_hex t) with
                  | Ok e -> "E " ^ hex_of_bytes e | Err -> "MODEL-FUEL" | Panic -> "PANIC")
+     | Err -> "MODEL-FUEL" | Panic -> "PANIC")
+  | ["est"; m; r; t; b] ->
+    (match estimate (n_of_int (int_of_string m)) (bytes_of_hex r) (bytes_of_hex t) (n_of_int (int_of_string b)) with
+     | Ok e -> string_of_int (int_of_n e) | Err -> "MODEL-FUEL" | Panic -> "PANIC")
+  | ["cost"; m; r; t; pre] ->
+    (match cost_vector (n_of_int (int_of_string m)) (bytes_of_hex r) (bytes_of_hex t) (pre = "1") with
+     | Ok [] -> "-"
+     | Ok v -> String.concat "," (List.map (fun x -> string_of_int (int_of_n x)) v)
      | Err -> "MODEL-FUEL" | Panic -> "PANIC")
   | ["hash"; v] -> hex_of_n (murmur64 (n_of_hex v))
   | _ -> "DRIVER-ERROR bad case")
